@@ -48,7 +48,13 @@ MANIFEST = {
 # ------------------------------------------------------------------ scheduling
 
 
+class NonTermination(Exception):
+    pass
+
+
 class Sched:
+    limit = 20000  # replaced per CFG by the proven bound (see _bound)
+
     """policy: ('min'|'max'|'rand', seed) or ('seq', [idx...]) explicit (falls back to min)"""
 
     def __init__(self, policy, rng=None):
@@ -86,6 +92,9 @@ def _install(sched: Sched):
 
     class SchedSet(set):
         def pop(self):  # noqa: D102
+            if len(sched.log) > sched.limit:
+                # liveRun_terminates / assRun_terminates bound every run by (2*pairs+1)*(blocks+1) pops
+                raise NonTermination(f"worklist popped more than {sched.limit} blocks")
             idxs = [bb.idx for bb in self]
             i = sched.choose(idxs)
             sched.log.append(i)
